@@ -530,6 +530,10 @@ func (e *SpecEnv) callExpr(n *ECall, cur, old *State) Val {
 		case "freshOrNil":
 			v := e.eval(n.Args[0], cur, old)
 			return scalar(boolT, Or(Eq(v.L[0], Zero), Ge(v.L[0], e.freshBase())))
+		case "allocated":
+			// allocated(x): x was allocated before the state the clause is evaluated in
+			v := e.eval(n.Args[0], cur, old)
+			return scalar(boolT, Lt(v.L[0], cur.alloc))
 		case "preexisting":
 			v := e.eval(n.Args[0], cur, old)
 			return scalar(boolT, And(Gt(v.L[0], Zero), Lt(v.L[0], e.freshBase())))
